@@ -262,6 +262,35 @@ func init() {
 						}
 					}
 				}
+				// a reader that has streamed up to an unavailable leaf hops over it with a short forward seek: what lies
+				// behind the gap is present and must be read correctly; the gap itself still errors, also when sought back
+				for _, b := range fw.Blocks {
+					if !b.Leaf || b.Lo == 0 || int(b.Hi) >= L || b.Hi == b.Lo {
+						continue
+					}
+					fc := sh.fileCase(fmt.Sprintf("hop-%d-%d-%d-c%d", sh.n, sh.w, sh.last, b.C))
+					fc.Mode = "fault"
+					fc.Missing = []int{b.C}
+					fc.NotFound = b.C%2 == 0
+					fc.Script = [][]any{{"open", 1}, {"seek", 1, int(b.Lo) - 1, 0}, {"readall", 1, 1}, {"seek", 1, int(b.Hi), 0}, {"readall", 1, 2},
+						{"seek", 1, int(b.Lo) - 1, 0}, {"readall", 1, 1}, {"seek", 1, int(b.Hi - b.Lo), 1}, {"readall", 1, 1},
+						{"seek", 1, int(b.Lo), 0}, {"readall", 1, 1}, {"heal"}, {"readall", 1, 2}}
+					if err := runFileCase(fc, tr); err != nil {
+						return err
+					}
+					// the same hop when the gap's load fails only once (the k-th load of the run)
+					for kth := 1; kth <= 5; kth++ {
+						fc := sh.fileCase(fmt.Sprintf("hopfail-%d-%d-%d-c%d-k%d", sh.n, sh.w, sh.last, b.C, kth))
+						fc.Mode = "fault"
+						fc.FailAt = kth
+						fc.NotFound = kth%2 == 1
+						fc.Script = [][]any{{"open", 1}, {"seek", 1, int(b.Lo) - 1, 0}, {"readall", 1, 1}, {"seek", 1, int(b.Hi), 0}, {"readall", 1, 2},
+							{"seek", 1, 0, 0}, {"readall", 1, L}}
+						if err := runFileCase(fc, tr); err != nil {
+							return err
+						}
+					}
+				}
 				// a transient failure of the k-th load issued while a reader positions itself inside a child
 				for _, off := range uniq([]int{1, sh.k + 1, L - 2, sh.k*2 + 1}) {
 					if off >= L {
